@@ -187,6 +187,26 @@ def trusted_scan(crate):
     return out
 
 def run(scratch, units=None, post=None, want_air=True, timeout=1800):
+    """_run, plus one retry without the optional contract units (contracts/name.py: C17 label grammar / suffix algebra) when the
+    annotated crate is rejected by the front end: an edit of one of *their* functions to something Verus does not support must
+    not make every other property undecided.  The retry's result carries a `degraded` entry, which `check` turns into
+    "undecided" for the property the units serve (C17) only."""
+    res = _run(scratch, units, post, want_air, timeout)
+    if (res['status'] == 'undecided' and not os.environ.get('VX_DISABLE_OPTIONAL')
+            and ('front-end error' in res['reason'] or 'does not compile' in res['reason'])):
+        os.environ['VX_DISABLE_OPTIONAL'] = '1'
+        try:
+            res2 = _run(os.path.join(scratch, 'noopt'), units, post, want_air, timeout)
+        finally:
+            del os.environ['VX_DISABLE_OPTIONAL']
+        if res2['status'] == 'ok' or res2.get('crate') is not None and 'front-end error' not in res2['reason'] and 'does not compile' not in res2['reason']:
+            first = re.sub(r'\s+', ' ', res['reason'])[:240]
+            res2['degraded'] = list(res2.get('degraded', [])) + [('degraded', 'dns/name.rs', 'C17: optional units disabled after front-end rejection: ' + first)]
+            res2['wall_s'] += res['wall_s']
+            return res2
+    return res
+
+def _run(scratch, units=None, post=None, want_air=True, timeout=1800):
     """returns dict with status in {'ok','undecided'}; never raises for tool problems"""
     t0 = time.time()
     res = {'status': 'ok', 'reason': '', 'failures': [], 'obligations_per_fn': {}, 'wall_s': 0.0}
@@ -255,6 +275,7 @@ def run(scratch, units=None, post=None, want_air=True, timeout=1800):
     res['obligations_per_fn'] = air_obligations(log_dir) if log_dir else {}
     res['trusted'] = trusted_scan(crate)
     res['rewrites'] = [l for l in crate.log if l[0] in ('rewrite', 'closure-contract')]
+    res['degraded'] = [l for l in crate.log if l[0] == 'degraded']
     res['contracted'] = crate.contracted
     res['externalised'] = crate.externalised
     res['crate'] = crate
